@@ -30,6 +30,7 @@ META = {
 }
 META["technique"] += '; no-call rule on data-plane values'
 META["technique"] += '; base_globals forwarding of every context built in RenderContext.copy'
+META["technique"] += '; dict() of a parameter only behind an isinstance(Mapping) test'
 META["level_text"] += ' Also decided (R4): no data-plane value is ever called.'
 
 PROTOCOL = {
@@ -399,6 +400,10 @@ def run(prog: Program, res: Result) -> None:
         else:
             res.fail("C05.R6c", file=copy_m.file, line=c.lineno, qualname="RenderContext.copy", construct=f"RenderContext.copy: child built with base_globals={norm(kw) if kw is not None else '<missing>'}", message=f"RenderContext.copy constructs a child context with base_globals={norm(kw) if kw is not None else 'left out'}: the child's base_globals becomes its own global_data (template bindings included), and the translate tag / filters resolve `translations` there - an object the template bound is then used as the catalog and its gettext / ngettext methods are called", what=what)
     res.floor("C05.R6c", "child context constructions in copy()", len(ctors6c), 2)
+    res.rule("C05.R7", "`dict(x)` runs x.keys(): in the argument helpers of liquid2/filter.py and in the filters it is applied to a template-supplied parameter only behind `isinstance(x, Mapping)` - otherwise a context object that merely has a Python `keys()` method gets it called and its result printed (zero or more sites; every site must be narrowed)")
+    from checks.shared import check_dict_of_data_is_narrowed
+
+    check_dict_of_data_is_narrowed(prog, res, "C05.R7")
 
     # ------------------------------------------------------------------ R4 data values are never called
     res.rule("C05.R4", "a value that can hold a context object is never called: no `v(...)`, `v[k](...)` on data-plane variables (calling is not part of the item/length/iteration/conversion protocol)")
